@@ -9,12 +9,14 @@ Line-protocol driver for C02.  The SAME op file is read by the native C driver
     prog <n> {<type>:<not>:<outbound>:<must>:<mark>:<payload>}*n      b.compiledRules (typed)
     tries <T> {<n> prefix*n}*T               b.simulatedLpmTries
     reserve <count> <real start>             reserveLpmRingSlots            -> ok [ring-model-predicted=<s>]
-    lpm <trieIdx> <slot> <nk> {<plen>:<32hex>}*nk   real cidrToBpfLpmKey bytes -> ok | enc-differs
+    lpm <slot> <nk> {<plen>:<32hex>}*nk      lpm_array_map[slot] as dumped from the real kernel map
     lpmdel <slot>
-    rules <n> {<48hex>}*n                    real rewriteKernRules… images   -> ok | enc-differs
+    rset <n> {<idx>:<48hex>}*n               routing_map entries as dumped from the real kernel map
+    instcheck                                installedB on the dumped maps   -> ok | not-installed …
     meta <n>
     dom <32hex> <256hex> | domdel <32hex>
     pkt <64hex flag> <sport> <dport> <saddr> <daddr> <mac> <ubm 256hex | ->  -> k=<routeK> u=<matchU>[ NEQ]
+    kpkt <same fields>                       kernel only (error paths)       -> k=<routeK>
     const <name>                                                             -> =<v> | =-
 -/
 open DaeVerif DaeVerif.Proto DaeVerif.RuleScan DaeVerif.C12 DaeVerif.C01 DaeVerif.C02
@@ -148,17 +150,12 @@ def step (st : St) (line : String) : St × String :=
           if s = real then "ok" else s!"ok ring-model-predicted={s}")
       | none => ({ st with start := real, count := c }, "ok ring-model-predicted=err")
     | _, _ => (st, "bad-op")
-  | "lpm" :: i :: slot :: nk :: ks =>
-    match i.toNat?, slot.toNat?, nk.toNat?, ks.mapM parseKey? with
-    | some i, some slot, some nk, some keys =>
+  | "lpm" :: slot :: nk :: ks =>
+    match slot.toNat?, nk.toNat?, ks.mapM parseKey? with
+    | some slot, some nk, some keys =>
       if keys.length != nk then (st, "bad-op") else
-      let st' := { st with maps := { st.maps with lpm := (slot, keys) :: st.maps.lpm.filter (·.1 != slot) } }
-      match (lpmEntries st.start 0 st.tries)[i]? with
-      | some (eslot, ekeys) =>
-        if eslot = slot ∧ ekeys = keys then (st', "ok")
-        else (st', s!"enc-differs trie={i} model-slot={eslot} model-keys={" ".intercalate (ekeys.map keyStr)}")
-      | none => (st', s!"enc-differs trie={i} not-in-model")
-    | _, _, _, _ => (st, "bad-op")
+      ({ st with maps := { st.maps with lpm := (slot, keys) :: st.maps.lpm.filter (·.1 != slot) } }, "ok")
+    | _, _, _ => (st, "bad-op")
   | ["lpmdel", slot] =>
     match slot.toNat? with
     | some slot =>
@@ -166,21 +163,34 @@ def step (st : St) (line : String) : St × String :=
         ({ st with maps := { st.maps with lpm := st.maps.lpm.filter (·.1 != slot) } }, "ok")
       else (st, "err=-2")
     | none => (st, "bad-op")
-  | "rules" :: n :: hs =>
-    match n.toNat?, hs.mapM hexToBytes? with
-    | some n, some imgs =>
-      if imgs.length != n then (st, "bad-op") else
-      let st' := { st with maps := { st.maps with routing := overwritePrefix st.maps.routing imgs } }
-      match rewriteKern st.start st.count st.kp with
-      | some kk =>
-        let model := kk.map (encodeGo .little)
-        if model = imgs then (st', "ok")
-        else
-          let bad := (List.range (max model.length imgs.length)).find? fun i => model[i]? != imgs[i]?
-          let i := bad.getD 0
-          (st', s!"enc-differs i={i} model={bytesToHex (model.getD i [])} real={bytesToHex (imgs.getD i [])}")
-      | none => (st', "enc-differs model-rewrite-error")
+  | "rset" :: n :: es =>
+    match n.toNat?, es.mapM (fun (e : String) => match e.splitOn ":" with
+        | [i, h] => do let i ← i.toNat?; let b ← hexToBytes? h; pure (i, b)
+        | _ => none) with
+    | some n, some upd =>
+      if upd.length != n then (st, "bad-op") else
+      let top := upd.foldl (fun acc p => max acc (p.1 + 1)) st.maps.routing.length
+      let padded := st.maps.routing ++ List.replicate (top - st.maps.routing.length) (zeros 24)
+      let routing := upd.foldl (fun (r : List (List Nat)) p => r.set p.1 p.2) padded
+      ({ st with maps := { st.maps with routing := routing } }, "ok")
     | _, _ => (st, "bad-op")
+  | ["instcheck"] =>
+    if installedB st.maps st.start st.kp st.tries then (st, "ok")
+    else
+      -- say which part fails
+      let badRule := (List.range st.kp.length).find? fun i =>
+        st.maps.routing[i]? != (st.kp[i]?).map fun (k : KEntry) => encodeGo .little (k.rewrite st.start)
+      let badTrie := (List.range st.tries.length).find? fun idx =>
+        match st.maps.lpmAt (ringSlot st.start idx), st.tries[idx]? with
+        | some keys, some t => !keysEquiv keys (t.map cidrToKey)
+        | _, _ => true
+      let r := match badRule with
+        | some i => s!" rule[{i}] kernel={bytesToHex (st.maps.routing.getD i [])} model={bytesToHex (((st.kp[i]?).map fun (k : KEntry) => encodeGo .little (k.rewrite st.start)).getD [])}"
+        | none => ""
+      let t := match badTrie with
+        | some idx => s!" trie[{idx}] expected-at-slot={ringSlot st.start idx} kernel={match st.maps.lpmAt (ringSlot st.start idx) with | some ks => " ".intercalate (ks.map keyStr) | none => "<empty slot>"}"
+        | none => ""
+      (st, s!"not-installed activeLen={st.maps.activeLen} want={st.kp.length}{r}{t}")
   | ["meta", n] =>
     match n.toNat? with
     | some n => ({ st with maps := { st.maps with activeLen := n } }, "ok")
@@ -204,6 +214,10 @@ def step (st : St) (line : String) : St × String :=
       let k := routeK .little st.maps pk
       let u := matchU st.kp st.tries ubm pk
       (st, s!"k={k} u={outStr u}" ++ (if k = expectedK pk u then "" else " NEQ"))
+    | none => (st, "bad-op")
+  | "kpkt" :: ts =>
+    match parsePkt? (ts ++ ["-"]) with
+    | some (pk, _) => (st, s!"k={routeK .little st.maps pk}")
     | none => (st, "bad-op")
   | ["const", name] =>
     match constTable.lookup name with
